@@ -2,6 +2,7 @@ package c12
 
 import (
 	"fmt"
+	"os"
 	"math"
 	"math/big"
 
@@ -541,8 +542,19 @@ func (b *bgvCtx) program(r *eng.Rand, pi int) {
 		c.Count("slots_compared", int64(len(got)))
 		if bad >= 0 {
 			class := "wrong-value"
-			if len(p.lts) == 1 && !hasNonZero(p.lts[0].norm) && p.lts[0].ratio < 0 {
-				class = "wrong-value|only-diagonal-0-naive"
+			ksig := ""
+			if !p.isSeq() {
+				ksig = p.knownClass(i, n1s, cols)
+			} else {
+				for j := range p.lts {
+					if ksig = p.knownClass(j, n1s, cols); ksig != "" {
+						break
+					}
+				}
+			}
+			if ksig != "" {
+				c.Violate(ksig, fmt.Sprintf("%s output %d: %d/%d slots differ (t=%d)\nprogram=%+v", ent, i, nbad, len(got), t, desc), desc)
+				continue
 			}
 			fail(class, fmt.Sprintf("output %d: %d/%d slots differ, first at row %d col %d: got %d want %d (t=%d)", i, nbad, len(got), bad/cols, bad%cols, got[bad], ex.vals[bad], t))
 			continue
@@ -559,7 +571,10 @@ func (b *bgvCtx) program(r *eng.Rand, pi int) {
 				c.Max("max_noise_log2_x10_bgv", int64(10*st.MaxLog2))
 				bound := new(big.Float).SetFloat64(eBound)
 				meas := new(big.Float).SetInt(st.Max)
-				c.Max("max_noise_minus_bound_log2_x10_bgv", int64(10*(st.MaxLog2-math.Log2(eBound))))
+				c.Max("max_noise_over_bound_log2_x10_plus1000_bgv", 1000+int64(10*(st.MaxLog2-math.Log2(eBound))))
+				if os.Getenv("C12_DEBUG") != "" && st.MaxLog2-math.Log2(eBound) > -8 {
+					fmt.Fprintf(os.Stderr, "TIGHT %.1f vs %.1f: %+v\n", st.MaxLog2, math.Log2(eBound), desc)
+				}
 				c.Eval(1)
 				if meas.Cmp(bound) > 0 {
 					fail("noise-above-worst-case", fmt.Sprintf("output %d: measured 2^%.1f, worst-case bound 2^%.1f", i, st.MaxLog2, math.Log2(eBound)))
